@@ -28,6 +28,9 @@ IMPORTS = {
         ('C18', ['C18.b', 'C18.c', 'C18.d', 'C18.e', 'C18.f'],
          'a dangling owner field, a destroyed shallow copy, a half-moved container or a capacity recorded before the reallocation are double frees '
          '/ overflows whichever event (odd input, failed allocation) leads to the exit path (c01-3)'),
+        ('C19', ['C19.e', 'C19.g'],
+         'a copied configuration owns its hooks and its callback records: a copy that shares them with its source is a double free when both are '
+         'destroyed (c01-14)'),
         ('C10', ['C10.e'],
          'clean teardown: the per-message decompressor chain is destroyed before a new one is attached, otherwise the old chain is unreachable '
          'and leaked (c01-10)'),
@@ -45,7 +48,10 @@ IMPORTS = {
         ('C17', ['C17.c'], 'case-insensitive header lookup, first match: the table getters are the lookup the statement names'),
     ],
     'C03': [
-        ('C14', ['C14.a', 'C14.c', 'C14.d', 'C14.h'],
+        ('C06', ['C06.b', 'C06.f'],
+         'delivered body bytes are the same for every cut: a body state takes min(bytes still missing, bytes in this chunk) and moves every '
+         'cursor by exactly that amount (c03-12: the declared total passed where the remainder belongs)'),
+        ('C14', ['C14.a', 'C14.c', 'C14.d', 'C14.h', 'C14.j'],
          'multipart parameters are part of the reported transaction: the CR / boundary bytes set aside at the end of a chunk are replayed or '
          'dropped exactly once, otherwise the parts depend on where the body was cut (c03-5, c03-10)'),
         ('C15', ['C15.b', 'C15.d'],
@@ -59,6 +65,13 @@ IMPORTS = {
         ('C17', ['C17.a', 'C17.f'],
          'the transaction list is an htp_list: when its ring buffer grows or wraps wrongly, position i no longer holds transaction i '
          '(c04-1, c04-9)'),
+        ('C16', ['C16.d', 'C16.e'],
+         'the documented DATA_OTHER hand-over is part of the statement: the response side yields at the end of the CONNECT transaction exactly when '
+         'the request side waits on it, and only a refused CONNECT releases the request side - otherwise the response parser runs ahead of a '
+         'request that has not been read yet and attaches its response to a request-less transaction (c04-12)'),
+        ('C01', ['C01.d'],
+         'destroying the transaction one direction has finished must not detach the other direction from a different transaction it is still '
+         'reading: the two parser slots are cleared independently (c04-14: request i+1 lost, response i+1 unpaired)'),
         ('C03', ['C03.a', 'C03.b'],
          'pairing is claimed for every interleaving and chunking: a status line or CONNECT probe line whose first piece is not set aside is lost, '
          'and the response that follows is attached to the wrong transaction (c04-7, c04-11)'),
@@ -110,6 +123,9 @@ IMPORTS = {
          'at the end of a chunk (c11-5)'),
         ('C02', ['C02.h', 'C02.i'],
          '"regardless of surrounding whitespace": the framing fields are looked up by a name and a value that were trimmed completely (c11-10)'),
+        ('C13', ['C13.b'],
+         'a request target whose port is outside 1..65535 is a syntactically invalid host: the port predicates mark everything else invalid, '
+         'which is what raises the invalid-host indicator for the target (c11-14)'),
         ('C12', ['C12.e'], 'the request-target host is decoded with the transaction\'s own decoder configuration before it is compared with Host (c11-8)'),
     ],
     'C13': [
